@@ -132,6 +132,9 @@ def check_property(prop, tier):
             rel_fail = [f for f in fails if f["class"] in classes]
             res_fail = [f for f in fails if f["class"] == "resource"]
             status = "ok"
+            if ob["status"] == "undecided":
+                status = "undecided"
+                undecided.append("%s: %s cannot be decided on this tree: %s" % (u, oid, ob.get("undecided_reason", "")))
             if lim_hits:
                 status = "partial"
                 partial[oid] = sorted({k.get("id", "?") for k in lim_hits})
